@@ -30,6 +30,11 @@ Examples of the kind of interaction meant (do not use these literally): a setup 
   - names: functions with the same `__name__` in different modules / classes (qualnames), lambdas, names that are prefixes of each other, 10+ usages (f<<9>> / f<<10>>), parameter names equal to node names or to tag names, a DAG parameter called like an option (`twz_tag`...), tags that are tuples / equal to an id / not strings, dotted names inside nested DAGs;
   - order and identity: iteration order of dicts / sets / sorted() ties (string vs insertion order, dependence on PYTHONHASHSEED), `is` vs `==`, shallow vs deep copies leading to state shared between two DAG objects / two calls / two executors, ids of objects re-used after garbage collection, caching keyed by id / name / hash, results kept alive or dropped too early, mutation of an argument or a default in place by the library.
 The violation must be shown through the public behaviour named in the property (not just "an internal attribute differs").""",
+    9: """This is the NINTH round for this property; code paths, configurations, histories, feature interactions and value / name / identity dependence have been covered thoroughly (see the list below). This round is about RE-ENTRANCY, ENVIRONMENT and LIFECYCLE: make a SMALL and SUBTLE change (ideally <= 6 changed lines) whose effect only shows in one of these situations - all of them legal uses:
+  - re-entrancy: a node function that itself calls another DAG / the same DAG object / an executor / a decorated function / builds a DAG (`@dag` inside a node), a DAG object used as the function of a node (`xn(inner_dag)`), a describing function that calls a DAG or reads `dag.results` while it is being traced, recursion through nested DAGs;
+  - where the call comes from: a worker thread instead of the main thread (what "main-thread" means then), several threads taking turns on one DAG, a sync DAG called from inside a running event loop or from a coroutine's `to_thread`, an AsyncDAG awaited in several event loops one after the other (`asyncio.run` twice), in a loop with a custom default executor, with `uvloop`-like policies absent; calls made at interpreter shutdown / from `atexit`; `contextvars` seen by node functions;
+  - lifecycle of objects: deepcopy / pickle (dill) / `copy.copy` of a DAG, an AsyncDAG, an executor or a decorated function BEFORE and AFTER calls, setup, config reloads or failures, and using the copy next to the original; DAG objects created in a loop (hundreds) and dropped; the same describing function decorated twice; a DAG re-built from the same source in the same process; module reload;
+  - cleanup: what is left behind after a call that raised, was cancelled (`task.cancel()` on an awaited AsyncDAG, `asyncio.wait_for` timeout), or was interrupted (KeyboardInterrupt raised in a node of the main thread): pools, tasks, tracing state (`is_describing_dag` / the description lock / module-level registries), half-written cache files - and whether the NEXT call of the same or another DAG behaves.""",
 }
 
 
